@@ -8,7 +8,10 @@ The projection compared after every step contains the use count of the control b
 state has been freed, the live-instance / destruction counters of the stored value, the allocation
 balance, the awaiter chain, the stored result, what every awaiter saw and how often it was resumed,
 and every thread's pending operation.  Thorough builds the replayer with ASan/UBSan (no weak_ptr
-probe there, so a use-after-free of the freed state aborts the replay)."""
+probe there, so a use-after-free of the freed state aborts the replay); quick replays two small
+configurations on a second, sanitized build as well.  The broken variants of the specification
+(Variant) and the as-found model of operator<< (Fixed = FALSE) must be rejected by TLC (vacuity guard);
+the counterexample of the latter is replayed on the tree to decide which model the tree has to follow."""
 import os
 
 import vlib
@@ -107,7 +110,7 @@ SHL_KEY = "shared_future_shl_untraced"
 
 
 def check_shl(ctx, rp, env):
-    """shared_future::operator<< (shared_future.h:197-202).  The model of the code as found (Fixed = FALSE:
+    """shared_future::operator<< (shared_future.h:197-205).  The model of the code as found (Fixed = FALSE:
     the future in the state is replaced, the tracer is not charged) violates AliveWhilePending.  Decide on
     the real code: replay the counterexample.  Followed step by step -> the defect is in the tree
     (violation / known finding).  Not followed -> the tree must conform to the repaired model (Fixed =
@@ -126,7 +129,7 @@ def check_shl(ctx, rp, env):
     ctx.extra["operator_shl_as_found_counterexample_followed_by_code"] = followed
     if followed:
         ctx.violation(SHL_KEY,
-                      "shared_future::operator<< (shared_future.h:197-202) replaces the future in the shared state but "
+                      "shared_future::operator<< (shared_future.h:197-205) replaces the future in the shared state but "
                       "never charges the resolve tracer: `shared_future<T> f; f.init_if_needed(); f << fn_returning_pending_future;` "
                       "then dropping every handle destroys and frees the state while it is still pending (debug build: assert "
                       "'Destroy of pending future'); the promise later writes into freed memory (future.h:555).  TLC "
@@ -137,9 +140,11 @@ def check_shl(ctx, rp, env):
 
 
 def tlc_only(ctx, tag, H, modes, kinds, **kw):
-    """exhaustive TLC run of a configuration too large to dump and replay"""
+    """exhaustive TLC run without state graph dump / replay: safety and the liveness property NoHang (under
+    weak fairness of every thread; the dumped runs check safety only -- the graphs are acyclic and
+    NoStuckState covers the terminal states, TLC would dump the liveness tableau as well)"""
     cfg = os.path.join(vlib.BUILD, "C17_%s.cfg" % tag)
-    base = open(os.path.join(vlib.VERIF, "spec", "SharedFuture", "SharedFuture_base.cfg")).read()
+    base = open(os.path.join(vlib.VERIF, "spec", "SharedFuture", "SharedFuture_live.cfg")).read()
     vlib.write_cfg(cfg, base, constants(H, modes, kinds, **kw))
     res = ctx.tlc("SharedFuture", "SharedFuture", cfg, tag, workers=4, timeout=3000)
     try:
@@ -181,6 +186,7 @@ def run(ctx):
         run_cfg(ctx, rp, "c2", h2, ["retfut", "async"], ["val"], co=["h2"], po=["h1"], copies=1, handles=1)
         run_cfg(ctx, rp, "c3", h2, ["fn"], ["val"], cb=["h1"], bl=["h2"], copies=2, handles=1)
         run_cfg(ctx, rp, "c4", h2, [modes[-1]], ["val"], co=["h1"], bl=["h2"], po=["h2"], copies=2, handles=2, max_paths=1500)
+        tlc_only(ctx, "live", h2, ["fn", "late"], kinds, co=["h1"], bl=["h2"], cb=["h2"], copies=1, handles=1)
         # sanitized replays (this one and c1; no weak_ptr probe): a touch of the state after the last reference is gone
         # aborts the replayer
         run_cfg(ctx, rp_asan, "a1", h1, ["fn", "late", "retfut", "async"], ["val", "dtor"], co=h1, cb=h1, copies=1, handles=1, env=asan_env)
